@@ -2,6 +2,7 @@ package http2
 
 import (
 	"fmt"
+	"io"
 
 	"github.com/valyala/fasthttp"
 )
@@ -271,4 +272,77 @@ func VerifH_C02_block() {
 		vAssert(b.res.StatusCode() == 404 && string(b.res.Header.Peek("x-t")) == "A", "C02.block.decoder-in-step")
 	}
 	vCover("C02.block.three-frames", cut1 > 0 && cut2 > cut1 && cut2 < len(blk) && done && upd && endOnHeaders)
+}
+
+// vFillReader is a request body stream of n octets, all equal to ch, handed
+// out at most chunk octets per Read.
+type vFillReader struct {
+	ch    byte
+	left  int
+	chunk int
+}
+
+func (r *vFillReader) Read(p []byte) (int, error) {
+	if r.left == 0 {
+		return 0, io.EOF
+	}
+	n := r.chunk
+	if n > r.left {
+		n = r.left
+	}
+	if n > len(p) {
+		n = len(p)
+	}
+	for i := 0; i < n; i++ {
+		p[i] = r.ch
+	}
+	r.left -= n
+	return n, nil
+}
+
+// Two requests with streamed bodies (6 octets of 'A' with declared length, 7
+// octets of 'B' with unknown length, read 6 or 3 octets at a time) on a
+// connection whose server allows 4 octets per stream: each body stops
+// part-way, and goes on when the server sends WINDOW_UPDATE for its stream,
+// in either order. Each stream carries its own octets, all of them, in order,
+// with END_STREAM exactly once.
+//
+//verif:harness prop=C02,C07 unwind=300 timeout=600
+func VerifH_C02_streams() {
+	cl := vStartClient()
+	cl.feed(vFrame(0x4, 0x0, 0, []byte{0, 4, 0, 0, 0, 4}))
+	chunk := [2]int{6, 3}[vRange(0, 1)]
+	a := cl.requestStream("/a", &vFillReader{ch: 'A', left: 6, chunk: chunk}, 6)
+	b := cl.requestStream("/b", &vFillReader{ch: 'B', left: 7, chunk: chunk}, -1)
+	first := uint32(1 + 2*vRange(0, 1))
+	for round := 0; round < 2; round++ {
+		cl.feed(vFrame(0x8, 0x0, first, []byte{0, 0, 0, 2}))
+		cl.feed(vFrame(0x8, 0x0, 4-first, []byte{0, 0, 0, 2}))
+	}
+	bodies := map[uint32]string{}
+	ends := map[uint32]int{}
+	sentSoFar := map[uint32]int{}
+	for _, f := range cl.sent() {
+		if f.typ != 0x0 {
+			continue
+		}
+		vAssert(ends[f.stream] == 0, "C02.streams.nothing-after-end-stream")
+		bodies[f.stream] += string(f.frag)
+		sentSoFar[f.stream] += len(f.frag)
+		if f.flags&0x1 != 0 {
+			ends[f.stream]++
+		}
+	}
+	vNote(fmt.Sprintf("chunk=%d first=%d bodies=%q ends=%v", chunk, first, bodies, ends))
+	vAssert(bodies[1] == "AAAAAA", "C02.streams.first-body-intact")
+	vAssert(bodies[3] == "BBBBBBB"[:len(bodies[3])] && len(bodies[3]) <= 7, "C02.streams.second-body-its-own-octets")
+	vAssert(ends[1] == 1, "C02.streams.first-body-ended")
+	// stream 3 was granted 4+2+2 = 8 octets: all 7 fit
+	vAssert(bodies[3] == "BBBBBBB" && ends[3] == 1, "C02.streams.second-body-intact-and-ended")
+	cl.feed(vFrame(0x1, 0x5, 1, vRespBlock(false, 'a')))
+	cl.feed(vFrame(0x1, 0x5, 3, vRespBlock(true, 'b')))
+	da, ea := a.outcome()
+	db, eb := b.outcome()
+	vAssert(da && db && ea == nil && eb == nil, "C02.streams.both-answered")
+	vCover("C02.streams.small-chunks", chunk == 3 && da)
 }
